@@ -668,6 +668,20 @@ fn gen(dir: &str) {
         if r.chance(1, 4) { ops.push(Op::In { col: false, kind: InK::Key, tx: tx.clone(), ix: 2 }); }
         emit(&mut out, "stale", &ops);
     }
+    // 6b. identical redeemers are emitted once (PlutusWitnesses::collect): an input and a collateral input, both first in
+    //     their sets, with the same redeemer data
+    for _ in 0..(4 * scale) {
+        let mut g = Gen::new(&mut r);
+        let rid = g.rid(&mut r);
+        let mut tx_a = g.tx.pick(&mut r); tx_a[0] = 0x00;
+        let mut tx_b = g.tx.pick(&mut r); tx_b[0] = 0x01;
+        let mut ops = vec![g.funding(), g.key_collateral(),
+            Op::In { col: false, kind: InK::Plutus(H { bytes: g.h28.pick(&mut r), seed: None }, rid), tx: tx_a, ix: 0 },
+            Op::In { col: true, kind: InK::Plutus(H { bytes: g.h28.pick(&mut r), seed: None }, rid), tx: tx_b, ix: 0 }];
+        for _ in 0..r.below(3) { ops.push(g.wd(&mut r)); }
+        shuffle(&mut r, &mut ops);
+        emit(&mut out, "dedup", &ops);
+    }
     // 7. no collateral although Plutus witnesses are present (build_tx refuses), and nothing Plutus at all
     for _ in 0..(6 * scale) {
         let mut g = Gen::new(&mut r);
